@@ -29,11 +29,16 @@ const (
 	kZero atomKind = iota
 	kVal
 	kLen
+	kCell    // integer value of a struct field at function entry state: key = cellKey
+	kLenCell // len of a slice-typed struct field at entry state
+	kSum     // s1 + s2 of two atoms
 )
 
 type atom struct {
-	k atomKind
-	v ssa.Value
+	k   atomKind
+	v   ssa.Value
+	key string // kCell/kLenCell: "<render base>#<field>"; kSum: canonical "a|b"
+	typ string // kCell: "<named type>#<field>" for field invariants
 }
 
 var zero = atom{k: kZero}
@@ -61,6 +66,11 @@ type Prover struct {
 	is32   bool
 	rep    map[string]*ssa.UnOp
 	stored map[string]bool
+	sums   map[string][2]atom
+	// FieldLower: lower bounds that hold for an integer struct field as a (checked) type invariant: "<pkg.Type>#<field>" -> bound
+	FieldLower map[string]int64
+	// Summaries of guard functions: callee -> conditions (over the callee's own values) that hold when it returns nil/true
+	Summaries map[*ssa.Function][]core.Cond
 }
 
 // New creates a prover for fn.
@@ -68,6 +78,9 @@ func New(fn *ssa.Function) *Prover {
 	p := &Prover{fn: fn, ivalMemo: map[ssa.Value][2]int64{}, ivalBusy: map[ssa.Value]bool{}, EntryLen: map[*ssa.Parameter]int64{}, Notes: map[string]bool{}}
 	p.rep = map[string]*ssa.UnOp{}
 	p.stored = map[string]bool{}
+	p.sums = map[string][2]atom{}
+	p.FieldLower = map[string]int64{}
+	p.Summaries = map[*ssa.Function][]core.Cond{}
 	for _, b := range fn.Blocks {
 		for _, in := range b.Instrs {
 			if st, ok := in.(*ssa.Store); ok {
@@ -385,7 +398,8 @@ func cellOf(addr ssa.Value) (cell, bool) {
 	if !ok {
 		return cell{}, false
 	}
-	return cell{base: fa.X, field: fa.Field}, true
+	// a receiver/parameter spilled into a local because a closure captures it: use the parameter itself
+	return cell{base: core.Deref(fa.X), field: fa.Field}, true
 }
 
 type reaching struct {
@@ -406,11 +420,44 @@ func sameCell(a, b cell) bool {
 }
 
 func isPureAddr(v ssa.Value) bool {
-	switch v.(type) {
+	switch x := v.(type) {
 	case *ssa.Parameter, *ssa.Alloc, *ssa.FieldAddr:
 		return true
+	case *ssa.UnOp:
+		if _, ok := x.X.(*ssa.FreeVar); ok && x.Op == token.MUL {
+			return true // a captured (single-assignment) pointer variable
+		}
 	}
 	return false
+}
+
+// cellTyp: "<named struct type>#<field>" of a cell, for type-level field invariants.
+func cellTyp(c cell) string {
+	n := core.NamedOf(c.base.Type())
+	if n == nil {
+		return ""
+	}
+	return fmt.Sprintf("%s#%d", n.String(), c.field)
+}
+
+// cellAtom: the atom standing for the value a cell has when no store of this function has reached it yet.
+func cellAtom(c cell, isLen bool) atom {
+	k := kCell
+	if isLen {
+		k = kLenCell
+	}
+	return atom{k: k, key: cellKey(c), typ: cellTyp(c)}
+}
+
+func (p *Prover) sumAtom(a, b atom) atom {
+	ka, kb := atomString(a), atomString(b)
+	if kb < ka {
+		a, b = b, a
+		ka, kb = kb, ka
+	}
+	key := ka + " + " + kb
+	p.sums[key] = [2]atom{a, b}
+	return atom{k: kSum, key: key}
 }
 
 // mayWrite: instruction may modify cell c (a store to it, or a call that receives its base pointer).
@@ -586,10 +633,16 @@ func (p *Prover) termOf(v ssa.Value) term {
 				t := p.termOf(x.Y)
 				return term{t.a, t.c + k}
 			}
+			if x.Op == token.ADD {
+				tx, ty := p.termOf(x.X), p.termOf(x.Y)
+				if tx.a.k != kZero && ty.a.k != kZero {
+					return term{p.sumAtom(tx.a, ty.a), tx.c + ty.c}
+				}
+			}
 		}
 	case *ssa.Call:
 		if b, ok := x.Call.Value.(*ssa.Builtin); ok && b.Name() == "len" {
-			return term{atom{kLen, canonSlice(x.Call.Args[0])}, 0}
+			return term{p.sliceAtom(x.Call.Args[0]), 0}
 		}
 	case *ssa.UnOp:
 		if x.Op == token.MUL {
@@ -598,13 +651,13 @@ func (p *Prover) termOf(v ssa.Value) term {
 				if len(rs) == 1 && rs[0].val != nil {
 					return p.termOf(rs[0].val)
 				}
-				if r := p.repLoad(x); r != ssa.Value(x) {
-					return term{atom{kVal, r}, 0}
+				if len(rs) == 1 && rs[0].val == nil && isPureAddr(c.base) {
+					return term{cellAtom(c, false), 0}
 				}
 			}
 		}
 	}
-	return term{atom{kVal, v}, 0}
+	return term{atom{k: kVal, v: v}, 0}
 }
 
 // sliceAtom returns the len-atom of a slice/string value, forwarding field loads with a single reaching store.
@@ -616,10 +669,12 @@ func (p *Prover) sliceAtom(v ssa.Value) atom {
 			if len(rs) == 1 && rs[0].val != nil {
 				return p.sliceAtom(rs[0].val)
 			}
-			return atom{kLen, p.repLoad(ld)}
+			if len(rs) == 1 && rs[0].val == nil && isPureAddr(c.base) {
+				return cellAtom(c, true)
+			}
 		}
 	}
-	return atom{kLen, v}
+	return atom{k: kLen, v: v}
 }
 
 // defFacts adds facts that follow from the definitions of the atoms currently in the graph (closure, bounded).
@@ -684,6 +739,12 @@ func (p *Prover) defFacts(g *graph) {
 						g.leq(ty, self, -xlo)
 					}
 				}
+			case kCell:
+				if lb, ok := p.FieldLower[a.typ]; ok {
+					g.add(a, zero, -lb)
+				}
+			case kLenCell:
+				g.add(a, zero, 0)
 			case kLen:
 				g.add(a, zero, 0) // len >= 0
 				self := term{a, 0}
@@ -738,7 +799,137 @@ func (p *Prover) defFacts(g *graph) {
 
 // condFacts adds the constraints implied by branch conditions.
 func (p *Prover) condFacts(g *graph, conds []core.Cond) {
+	p.condFactsWith(g, conds, p.termOf, 2)
+}
+
+// guardCall: cond states that a summarised guard function returned nil (error result) / true (bool result).
+func (p *Prover) guardCall(dc core.Cond) *ssa.Call {
+	if call, ok := dc.V.(*ssa.Call); ok && dc.Pol {
+		if _, ok := p.Summaries[call.Call.StaticCallee()]; ok {
+			return call
+		}
+	}
+	if b, ok := dc.V.(*ssa.BinOp); ok && core.IsNilConst(b.Y) {
+		if call, ok := b.X.(*ssa.Call); ok {
+			if _, ok := p.Summaries[call.Call.StaticCallee()]; ok {
+				if (b.Op == token.EQL && dc.Pol) || (b.Op == token.NEQ && !dc.Pol) {
+					return call
+				}
+			}
+		}
+	}
+	return nil
+}
+
+// translator maps values of a summarised callee into terms of the caller at the call site.
+func (p *Prover) translator(call *ssa.Call) func(ssa.Value) term {
+	callee := call.Call.StaticCallee()
+	unknown := 0
+	var tr func(v ssa.Value) term
+	tr = func(v ssa.Value) term {
+		if n, ok := constInt(v); ok {
+			return term{zero, n}
+		}
+		switch x := v.(type) {
+		case *ssa.Parameter:
+			for i, q := range callee.Params {
+				if q == x && i < len(call.Call.Args) {
+					return p.termOf(call.Call.Args[i])
+				}
+			}
+		case *ssa.Convert:
+			if _, _, ok := typeRange(x.X.Type()); ok {
+				return tr(x.X)
+			}
+		case *ssa.BinOp:
+			if isWideInt(x.Type()) && (x.Op == token.ADD || x.Op == token.SUB) {
+				tx, ty := tr(x.X), tr(x.Y)
+				if x.Op == token.ADD {
+					if ty.a.k == kZero {
+						return term{tx.a, tx.c + ty.c}
+					}
+					if tx.a.k == kZero {
+						return term{ty.a, tx.c + ty.c}
+					}
+					return term{p.sumAtom(tx.a, ty.a), tx.c + ty.c}
+				}
+				if ty.a.k == kZero {
+					return term{tx.a, tx.c - ty.c}
+				}
+			}
+		case *ssa.UnOp:
+			if x.Op == token.MUL {
+				if fa, ok := x.X.(*ssa.FieldAddr); ok {
+					if par, ok := fa.X.(*ssa.Parameter); ok {
+						for i, q := range callee.Params {
+							if q == par && i < len(call.Call.Args) {
+								c := cell{base: core.Deref(call.Call.Args[i]), field: fa.Field}
+								if isPureAddr(c.base) && p.entryStateAt(call, c) {
+									return term{cellAtom(c, false), 0}
+								}
+							}
+						}
+					}
+				}
+			}
+		case *ssa.Call:
+			if b, ok := x.Call.Value.(*ssa.Builtin); ok && b.Name() == "len" {
+				if ld, ok := x.Call.Args[0].(*ssa.UnOp); ok && ld.Op == token.MUL {
+					if fa, ok := ld.X.(*ssa.FieldAddr); ok {
+						if par, ok := fa.X.(*ssa.Parameter); ok {
+							for i, q := range callee.Params {
+								if q == par && i < len(call.Call.Args) {
+									c := cell{base: core.Deref(call.Call.Args[i]), field: fa.Field}
+									if isPureAddr(c.base) && p.entryStateAt(call, c) {
+										return term{cellAtom(c, true), 0}
+									}
+								}
+							}
+						}
+					}
+				}
+			}
+		}
+		unknown++
+		return term{atom{k: kVal, v: v, key: fmt.Sprintf("callee:%d", unknown)}, 0}
+	}
+	return tr
+}
+
+// entryStateAt: no store of this function to cell c can have executed before instruction `at`.
+func (p *Prover) entryStateAt(at ssa.Instruction, c cell) bool {
+	b := at.Block()
+	idx := -1
+	for i, in := range b.Instrs {
+		if in == at {
+			idx = i
+		}
+	}
+	for i := idx - 1; i >= 0; i-- {
+		if _, w := mayWrite(b.Instrs[i], c); w {
+			return false
+		}
+	}
+	seen := map[*ssa.BasicBlock]bool{}
+	for _, pred := range b.Preds {
+		for _, v := range p.reachEnd(pred, c, seen, b, idx) {
+			if v != nil {
+				return false
+			}
+		}
+	}
+	return true
+}
+
+func (p *Prover) condFactsWith(g *graph, conds []core.Cond, termOf func(ssa.Value) term, depth int) {
 	for _, dc := range conds {
+		if depth > 0 {
+			if call := p.guardCall(dc); call != nil {
+				p.Notes["summary of "+call.Call.StaticCallee().Name()+" imported at a dominating call"] = true
+				p.condFactsWith(g, p.Summaries[call.Call.StaticCallee()], p.translator(call), depth-1)
+				continue
+			}
+		}
 		b, ok := dc.V.(*ssa.BinOp)
 		if !ok {
 			continue
@@ -748,7 +939,7 @@ func (p *Prover) condFacts(g *graph, conds []core.Cond) {
 		}
 		if rem, ok := b.X.(*ssa.BinOp); ok && rem.Op == token.REM && b.Op == token.EQL && dc.Pol {
 			if c, okc := constInt(b.Y); okc && c > 0 {
-				rx := p.termOf(rem.X)
+				rx := termOf(rem.X)
 				lo := int64(-inf)
 				if rx.a.k == kLen {
 					lo = 0
@@ -760,7 +951,7 @@ func (p *Prover) condFacts(g *graph, conds []core.Cond) {
 				}
 			}
 		}
-		x, y := p.termOf(b.X), p.termOf(b.Y)
+		x, y := termOf(b.X), termOf(b.Y)
 		op := b.Op
 		if !dc.Pol {
 			switch op {
@@ -881,6 +1072,9 @@ type alternative struct {
 // the per-edge values.
 func (p *Prover) alternatives(a atom) []alternative {
 	var out []alternative
+	if a.v == nil {
+		return nil
+	}
 	switch x := a.v.(type) {
 	case *ssa.Phi:
 		for i, e := range x.Edges {
@@ -933,6 +1127,12 @@ func atomString(a atom) string {
 		return "0"
 	case kLen:
 		return "len(" + core.RenderN(a.v, 3) + ")"
+	case kCell:
+		return "cell(" + a.key + ")"
+	case kLenCell:
+		return "len(cell(" + a.key + "))"
+	case kSum:
+		return "(" + a.key + ")"
 	}
 	return core.RenderN(a.v, 3)
 }
@@ -1048,6 +1248,33 @@ func (p *Prover) refine(g *graph) {
 	for round := 0; round < 3; round++ {
 		added := false
 		for a := range g.atoms {
+			if a.k != kSum {
+				continue
+			}
+			parts := p.sums[a.key]
+			x, y := parts[0], parts[1]
+			for _, z := range []atom{x, y} {
+				if !g.atoms[z] {
+					g.atoms[z] = true
+					p.defFacts(g)
+				}
+			}
+			self := term{a, 0}
+			for _, pr := range [][2]atom{{x, y}, {y, x}} {
+				u, w := pr[0], pr[1]
+				whi := g.shortest(zero, w)
+				wlo := -g.shortest(w, zero)
+				if whi < inf {
+					g.leq(self, term{u, 0}, whi) // s <= u + hi(w)
+					added = true
+				}
+				if wlo > -inf {
+					g.leq(term{u, 0}, self, -wlo) // u + lo(w) <= s
+					added = true
+				}
+			}
+		}
+		for a := range g.atoms {
 			if a.k != kVal {
 				continue
 			}
@@ -1093,4 +1320,9 @@ func (p *Prover) refine(g *graph) {
 			return
 		}
 	}
+}
+
+// ProveGE proves v >= k at instruction `at`.
+func (p *Prover) ProveGE(v ssa.Value, k int64, at ssa.Instruction) (bool, string) {
+	return p.prove(Query{T1: term{zero, k}, T2: p.termOf(v), C: 0}, core.DomConds(at), nil, 3)
 }
